@@ -9,6 +9,8 @@ from .iter_rules import EC
 
 def run(chk, ctx):
     P = Prog(ctx["facts"])
+    from . import c01
+    c01.stmt_arm_rule(chk, P, only=("ResetRandom",))   # every `resetRandom;` the program contains becomes a statement
     L = panrules.Lemmas(P, chk)
     chk.explanation = ("C17 decided structurally: term/ORG (the function bound to \"random\" samples a half-open Range{start: c >= 0, end: eval(args[0])} with gen_range and returns that value unchanged — no inclusive range, no end+1, no post-processing), "
                        "CNT (exactly one EvalContext::random call and one evaluation of args[0] per Ok path; random() performs exactly one gen_range), WHO (random is called only from that function; the rng field is touched only by the constructor, reset_random_seed and random), "
